@@ -2,6 +2,7 @@
 //!   <variant> <name> <validity> <value> [<context_flags>|- [<fill>]]
 //!   R <arch> <fill> <len>      (MinidumpContext::read: which context type is chosen; see run_read)
 //!   W <variant> <n1>=<v1>,<n2>=<v2>,... [<fill>]   (a sequence of set_register calls; see run_writes)
+//!   D <arch> <flags_off> <flags_width> <flags> <L|B>  (read of the byte pattern, every register reported; see run_decode)
 //! variant: MinidumpRawContext variant (X86 Ppc Ppc64 Amd64 Sparc Arm Arm64 OldArm64 Mips)
 //! name: register name, `-` for the empty string, `~` stands for a space
 //! validity: `A` (All) or `S:<n1>,<n2>,...` (Some(set); `S:` is the empty set; `-` = empty name)
@@ -279,17 +280,7 @@ fn run_read(t: &mut Toks) -> String {
     bytes.truncate(len);
     match MinidumpContext::read(&bytes, endian, &si, None) {
         Ok(c) => {
-            let v = match c.raw {
-                MinidumpRawContext::X86(_) => "X86",
-                MinidumpRawContext::Ppc(_) => "Ppc",
-                MinidumpRawContext::Ppc64(_) => "Ppc64",
-                MinidumpRawContext::Amd64(_) => "Amd64",
-                MinidumpRawContext::Sparc(_) => "Sparc",
-                MinidumpRawContext::Arm(_) => "Arm",
-                MinidumpRawContext::Arm64(_) => "Arm64",
-                MinidumpRawContext::OldArm64(_) => "OldArm64",
-                MinidumpRawContext::Mips(_) => "Mips",
-            };
+            let v = variant_name(&c.raw);
             let all = matches!(c.valid, MinidumpContextValidity::All);
             format!("rd={};rsz={};rip={}|va={}", v, c.register_size(), c.get_instruction_pointer(), all as u8)
         }
@@ -298,9 +289,55 @@ fn run_read(t: &mut Toks) -> String {
     }
 }
 
+/// `D <arch> <flags_off> <flags_width> <flags> <L|B>`: MinidumpContext::read (little- / big-endian) on the 8 KiB byte pattern with
+/// `flags` written at byte `flags_off` (`flags_width` bits, in the byte order of the read):
+/// `rd=<variant>;regs=<name:value of every pair registers() yields>;sp=..;ip=..` or `rd=RF` / `rd=UC`
+fn run_decode(t: &mut Toks) -> String {
+    let arch = t.u64() as u16;
+    let off = t.u64() as usize;
+    let width = t.u64() as usize;
+    let flags = t.u64();
+    let big = t.str() == "B";
+    let endian = if big { scroll::BE } else { scroll::LE };
+    let mut sys = vec![0u8; 56];
+    sys[0..2].copy_from_slice(&(if big { arch.to_be_bytes() } else { arch.to_le_bytes() }));
+    let si = MinidumpSystemInfo::read(&sys, &sys, endian, None).expect("system info from 56 bytes");
+    let mut bytes = pattern(None);
+    let n = width / 8;
+    for i in 0..n {
+        let shift = 8 * (if big { n - 1 - i } else { i });
+        bytes[off + i] = ((flags >> shift) & 0xff) as u8;
+    }
+    match MinidumpContext::read(&bytes, endian, &si, None) {
+        Ok(c) => {
+            let regs: Vec<String> = c.registers().map(|(n, v)| format!("{}:{}", n, v)).collect();
+            format!("rd={};regs={};sp={};ip={}", variant_name(&c.raw), regs.join(","), c.get_stack_pointer(), c.get_instruction_pointer())
+        }
+        Err(ContextError::ReadFailure) => "rd=RF".into(),
+        Err(ContextError::UnknownCpuContext) => "rd=UC".into(),
+    }
+}
+
+fn variant_name(raw: &MinidumpRawContext) -> &'static str {
+    match raw {
+        MinidumpRawContext::X86(_) => "X86",
+        MinidumpRawContext::Ppc(_) => "Ppc",
+        MinidumpRawContext::Ppc64(_) => "Ppc64",
+        MinidumpRawContext::Amd64(_) => "Amd64",
+        MinidumpRawContext::Sparc(_) => "Sparc",
+        MinidumpRawContext::Arm(_) => "Arm",
+        MinidumpRawContext::Arm64(_) => "Arm64",
+        MinidumpRawContext::OldArm64(_) => "OldArm64",
+        MinidumpRawContext::Mips(_) => "Mips",
+    }
+}
+
 fn run(line: &str) -> String {
     let mut t = Toks::new(line);
     let variant = t.str();
+    if variant == "D" {
+        return run_decode(&mut t);
+    }
     if variant == "R" {
         return run_read(&mut t);
     }
